@@ -306,3 +306,40 @@ func VH_C14_observeResetRefill() {
 	}
 	c14Agree(s, r, "after")
 }
+
+// Bind is a read: whatever it answers (also when the stored value cannot be converted, or cannot
+// even be encoded) the store is afterwards exactly as usable as before
+func VH_C14_bindIsARead() {
+	vUnwind(16)
+	s, r := c14Pre("pre")
+	key := vNondet[string]("bindKey")
+	if vNondet[bool]("storedValueCannotBeEncoded") {
+		vCover("bind-of-an-unencodable-value")
+		ch := make(chan int)
+		s.Set(key, ch)
+		r.set(key, ch)
+	}
+	var err error
+	switch vChoice("dest", 3) {
+	case 0:
+		var d struct{ A int }
+		err = s.Bind(key, &d)
+	case 1:
+		var d int
+		err = s.Bind(key, &d)
+	default:
+		var d map[string]any
+		err = s.Bind(key, &d)
+	}
+	_ = err // what Bind answers is C15/C16's business
+	k, v := vNondet[string]("k"), c14Val("v")
+	s.Set(k, v)
+	r.set(k, v)
+	if vNondet[bool]("thenDelete") {
+		k2 := vNondet[string]("k2")
+		s.Delete(k2)
+		r.del(k2)
+	}
+	c14Agree(s, r, "after-write")
+	vCover("bind-then-write")
+}
